@@ -3348,10 +3348,12 @@ class Tables(Monitor):
         for t in TABLES:
             for sym in idsyms:
                 for opn in ("table.getitem", "table.ll_get_row", "table.truncate", "table.setitem"):
+                    if tier == "quick" and opn == "table.setitem" and sym not in ("-1", "0", "n-1", "n", "max"):
+                        continue
                     yield {"base": rng.choice(bases), "steps": [{"op": opn, "args": {"table": t, "i": sym} if opn != "table.truncate" else {"table": t, "k": sym}},
                                                                {"op": "table.iterate", "args": {"table": t}}] + T}
-            for ids in ID_LISTS:
-                for dt in (None, "int32", "int64", "uint64", "float64") if tier != "quick" else (None, "int64", "float64"):
+            for ids in ID_LISTS if tier != "quick" else ID_LISTS[:10]:
+                for dt in (None, "int32", "int64", "uint64", "float64") if tier != "quick" else (None, "float64"):
                     yield {"base": rng.choice(bases), "steps": [{"op": "table.getitem_ids", "args": {"table": t, "ids": ids, "dtype": dt}}] + T}
                 for dt in ("int32", "int64", "uint32", "int8") if tier != "quick" else ("int32",):
                     yield {"base": rng.choice(bases), "steps": [{"op": "table.ll_extend", "args": {"table": t, "ids": ids, "dtype": dt}}] + T}
@@ -3376,7 +3378,7 @@ class Tables(Monitor):
                 yield {"base": rng.choice(bases), "steps": [{"op": "table.add_row_ids", "args": {"table": t, "v": v}},
                                                            {"op": "table.iterate", "args": {"table": t}}] + T}
             for col in FIXEDCOLS[t] + RAGGED[t] + [c + "_offset" for c in RAGGED[t]]:
-                for ln in ("n-1", "n+1", "0", "2n"):
+                for ln in ("n-1", "n+1", "0", "2n") if tier != "quick" else ("n-1", "n+1"):
                     for opn in ("table.set_columns_len", "table.append_columns_len"):
                         yield {"base": rng.choice(bases), "steps": [{"op": opn, "args": {"table": t, "col": col, "len": ln}},
                                                                    {"op": "table.iterate", "args": {"table": t}}] + T}
